@@ -239,9 +239,11 @@ def check_nd(tier, seed):
     from pySDC.helpers.spectral_helper import SpectralHelper, ChebychevHelper, FFTHelper, UltrasphericalHelper
 
     obs = []
-    cases = [(('fft', 4), ('cheby', 5)), (('cheby', 3), ('cheby', 4)), (('fft', 4), ('fft', 6)), (('fft', 4), ('ultraspherical', 5))]
+    cases = [(('fft', 4), ('cheby', 5)), (('cheby', 3), ('cheby', 4)), (('fft', 4), ('fft', 6)), (('fft', 4), ('ultraspherical', 5)),
+             # polynomial bases in an axis that is NOT the last one, mixed, and three dimensions
+             (('ultraspherical', 4), ('cheby', 3)), (('cheby', 4), ('fft', 4)), (('ultraspherical', 3), ('cheby', 3), ('fft', 4))]
     if tier != 'quick':
-        cases += [(('fft', 4), ('fft', 4), ('cheby', 3)), (('cheby', 6), ('fft', 8))]
+        cases += [(('fft', 4), ('fft', 4), ('cheby', 3)), (('cheby', 6), ('fft', 8)), (('ultraspherical', 3), ('ultraspherical', 4)), (('cheby', 3), ('ultraspherical', 3), ('cheby', 4))]
     mk = dict(fft=FFTHelper, cheby=ChebychevHelper, ultraspherical=UltrasphericalHelper)
     for axes in cases:
         h = SpectralHelper()
@@ -259,6 +261,29 @@ def check_nd(tier, seed):
                 want = np.kron(want, m)
             obs.append(_ob(f'{tag}:differentiation_axis{ax}_is_tensor_product', close(h.get_differentiation_matrix(axes=(ax,)).toarray(), want, 1e-10)))
         obs.append(_ob(f'{tag}:identity', close(h.get_Id().toarray(), np.eye(int(np.prod([n for _, n in axes]))))))
+
+        def kron_all(mats):
+            want = mats[0]
+            for m in mats[1:]:
+                want = np.kron(want, m)
+            return want
+
+        # basis conversion: along the named axes, and along ALL axes when none is named (the documented default)
+        for kw in (dict(conv='T2U', p_in=0, p_out=1), dict(conv='U2T', p_in=1, p_out=0), dict(conv='T2U', p_in=0, p_out=2)):
+            one_d = [np.asarray(one[a].get_basis_change_matrix(**kw).toarray()) for a in range(len(axes))]
+            ktag = ','.join(f'{k}={v}' for k, v in kw.items())
+            obs.append(_ob(f'{tag}:basis_change[{ktag}]:default_is_tensor_product_over_all_axes', close(h.get_basis_change_matrix(**kw).toarray(), kron_all(one_d), 1e-10)))
+            for ax in range(len(axes)):
+                mats = [np.eye(n) for _, n in axes]
+                mats[ax] = one_d[ax]
+                obs.append(_ob(f'{tag}:basis_change[{ktag}]:axis{ax}_only', close(h.get_basis_change_matrix(axes=(ax,), **kw).toarray(), kron_all(mats), 1e-10)))
+        # integration matrices along each polynomial axis
+        for ax, (b, n) in enumerate(axes):
+            if b == 'fft':
+                continue
+            mats = [np.eye(m) for _, m in axes]
+            mats[ax] = np.asarray(one[ax].get_integration_matrix().toarray())
+            obs.append(_ob(f'{tag}:integration_axis{ax}_is_tensor_product', close(h.get_integration_matrix(axes=(ax,)).toarray(), kron_all(mats), 1e-10)))
         X = h.get_grid()
         rng = np.random.RandomState(3)
         u = rng.randn(1, *[n for _, n in axes])
